@@ -20,7 +20,7 @@ from ..flow import Flow
 from ..norm import NotAlgebraic, Poly, py_poly, sql_poly
 from ..report import where_of
 from ..source import dotted_name, enclosing_func, enclosing_stmt
-from ..sqlmodel import expr_str
+from ..sqlmodel import expr_str, walk_expr
 from .c12 import full_call_name
 
 
@@ -509,16 +509,24 @@ def run(ctx, chk, tier="quick"):
             chk.indeterminate("C05.O4", ("spowtd/schema.sql", "<schema>", 0), "view %s missing" % view)
             continue
         sel = v.select
-        agg = [e for e, a in sel.columns if e[0] == "call" and e[1] in ("AVG", "SUM", "MIN", "MAX", "TOTAL")]
+        # the curve column as a linear combination of means:  AVG(p) = SUM(p) / COUNT(*) = TOTAL(p) / COUNT(*),  AVG(p + q) = AVG(p) + AVG(q)
         ok = False
         desc = "no aggregate"
-        if len(agg) == 1:
+        unread = None
+        for e, a in sel.columns:
+            if not any(x[0] == "call" and x[1] in ("AVG", "SUM", "MIN", "MAX", "TOTAL", "COUNT") for x in walk_expr(e)):
+                continue
             try:
-                p = sql_poly(agg[0][2][0], lambda c: c[2])
-                ok = agg[0][1] == "AVG" and p == Poly.atom(off) + Poly.atom(cross)
-                desc = "%s(%s)" % (agg[0][1], p.key())
+                nf = _mean_normal_form(e)
+                want = {Poly.atom(off).key(): 1, Poly.atom(cross).key(): 1}
+                ok = nf == want
+                desc = " + ".join((("%s*AVG(%s)" % (c, k) if c != 1 else "AVG(%s)" % k) if "(" not in k or k.startswith("(") else k) for k, c in sorted(nf.items())) or "0"
             except NotAlgebraic as exc:
+                unread = str(exc)
                 desc = str(exc)
+        if unread is not None and not ok:
+            chk.indeterminate("C05.O4", ("spowtd/schema.sql", "view " + view, 0), "aggregate of view %s is not a combination of means this rule reads: %s" % (view, unread))
+            continue
         tabs = [s.table for s in sel.sources]
         join_ok = tab in tabs and ztab in tabs and any(s.table == ztab and s.using == ["start_epoch"] or
                                                        (s.table in (tab, ztab) and s.on is not None and "start_epoch" in expr_str(s.on)) for s in sel.sources)
@@ -534,6 +542,8 @@ def run(ctx, chk, tier="quick"):
                "%s per %s; intervals joined to their own crossings: %s; level = id x step: %s" % (desc, gb, join_ok, lvl_ok),
                "AVG(offset + crossing) per level id over each interval's own crossings", key="view|%s|mean" % view,
                why="the master curve is the mean of the shifted crossings at each level; the offsets minimise the spread about exactly this mean")
+    from .. import sqltypes
+    sqltypes.check(ctx, chk, "C05.O4", views=("average_recession_time", "average_rising_depth"))
     # ---------------- O5: connected components
     _components(ctx, chk)
 
@@ -658,6 +668,53 @@ def _components(ctx, chk):
         return
     chk.ob("C05.O5", True, where_of(f, sel), "all groups of %s that share a series with the level are selected (%s), popped and united with it" % (groups, mname), req,
            key="get_connected_components|all-matches", why=why, scope=f)
+
+
+def _mean_normal_form(e):
+    """A select-list expression as {key of polynomial p: coefficient} meaning sum coeff * AVG(p), by linearity of the mean.
+    Reads AVG(p), SUM(p) / COUNT(*), TOTAL(p) / COUNT(*) (through CAST), sums, differences and constant multiples.
+    Raises NotAlgebraic for anything else (MIN, MAX, a bare SUM, a product of aggregates ...)."""
+    from fractions import Fraction
+
+    def strip_cast(x):
+        while x[0] == "cast":
+            x = x[1]
+        return x
+
+    def add(a, b, sign=1):
+        out = dict(a)
+        for k, c in b.items():
+            out[k] = out.get(k, 0) + sign * c
+            if out[k] == 0:
+                del out[k]
+        return out
+
+    def mean_of(x):
+        p = sql_poly(x, lambda c: c[2])
+        out = {}
+        for mono, c in p.terms.items():
+            k = Poly({mono: 1}).key()
+            out[k] = out.get(k, 0) + c
+        return out
+
+    e = strip_cast(e)
+    if e[0] == "call" and e[1] == "AVG" and len(e[2]) == 1 and not e[3]:
+        return mean_of(e[2][0])
+    if e[0] == "call" and e[1] in ("MIN", "MAX", "SUM", "TOTAL", "COUNT") and len(e[2]) == 1:
+        # another aggregate standing alone: readable, and not a mean
+        return {"%s(%s)" % (e[1], expr_str(e[2][0])[:40]): 1}
+    if e[0] == "bin" and e[1] in ("+", "-"):
+        return add(_mean_normal_form(e[2]), _mean_normal_form(e[3]), 1 if e[1] == "+" else -1)
+    if e[0] == "bin" and e[1] == "/":
+        num, den = strip_cast(e[2]), strip_cast(e[3])
+        if num[0] == "call" and num[1] in ("SUM", "TOTAL") and len(num[2]) == 1 and not num[3] \
+                and den[0] == "call" and den[1] == "COUNT" and len(den[2]) == 1 and den[2][0][0] == "star":
+            return mean_of(num[2][0])
+    if e[0] == "bin" and e[1] == "*":
+        for a, b in ((e[2], e[3]), (e[3], e[2])):
+            if a[0] == "num":
+                return {k: c * Fraction(str(a[1])) for k, c in _mean_normal_form(b).items()}
+    raise NotAlgebraic("%s" % expr_str(e)[:80])
 
 
 def _anc(node):
